@@ -172,13 +172,25 @@ func runCold(res *vk.Result, confs []Conf, only string, onlyN int) {
 			}
 			confirmed[sig]++
 			ok := true
-			for k := 0; k < 5 && confirmed[sig] <= 3; k++ {
-				c2, _, err := coldStatCase(c, u, n)
-				if err != nil || c2 != class {
+			if confirmed[sig] <= 3 {
+				// Five more observations of the same class are required. The deadlock is a race that even one P
+				// does not make fully deterministic (under load sysmon may preempt the helper's loop and let a
+				// worker's discovery win a gate slot), so for this class an "ok" re-run is skipped, within 10 attempts.
+				same := 0
+				for k := 0; k < 10 && same < 5; k++ {
+					c2, _, err := coldStatCase(c, u, n)
+					switch {
+					case err == nil && c2 == class:
+						same++
+					case err == nil && class == "deadlock" && c2 == "ok":
+					default:
+						k = 10
+					}
+				}
+				if same < 5 {
 					ok = false
-					res.EngineError("client-cold-stat %s n=%d: %s once, then %q (%v): unreproducible, not reported", c.Name(), n, class, c2, err)
+					res.EngineError("client-cold-stat %s n=%d: %s once, but only %d of the re-runs agreed: unreproducible, not reported", c.Name(), n, class, same)
 					sc.Exhaustive = false
-					break
 				}
 			}
 			if ok {
